@@ -1,4 +1,4 @@
-import Ark.Proofs.GenBridge
+import Ark.Proofs.GenBridge.ObsReset
 import Ark.Props.C02
 import Ark.Props.C08
 import Ark.Proofs.Rejects
